@@ -10,7 +10,7 @@ V = os.path.dirname(os.path.dirname(os.path.abspath(__file__)))
 sys.path.insert(0, os.path.join(V, "selftest"))
 from mutants import MUTANTS  # noqa: E402
 
-REPO = "/repo"
+REPO = os.environ.get("VERIF_REPO", "/repo")  # a scratch worktree can be used while /repo is busy (VERIF_TARGET for its dependency cache)
 args = [a for a in sys.argv[1:]]
 only_rule = None
 if "--only" in args:
@@ -27,6 +27,8 @@ def clean():
     return subprocess.run(["git", "-C", REPO, "diff", "--quiet"]).returncode == 0
 
 
+import tempfile
+scratch_evidence = tempfile.mkdtemp()
 results = {}
 prev = os.path.join(V, "selftest", "mutants.last.tsv")
 if os.path.exists(prev):
@@ -54,7 +56,10 @@ for entry in MUTANTS:
     else:
         open(full, "w").write(src.replace(old, new))
         try:
-            out = subprocess.run([os.path.join(V, "vcheck"), prop], cwd=V, stdout=subprocess.PIPE, stderr=subprocess.STDOUT).stdout.decode("utf-8", "replace")
+            env = dict(os.environ)
+            if REPO != "/repo":
+                env["VERIF_EVIDENCE_DIR"] = scratch_evidence
+            out = subprocess.run([os.path.join(V, "vcheck"), prop], cwd=V, env=env, stdout=subprocess.PIPE, stderr=subprocess.STDOUT).stdout.decode("utf-8", "replace")
         finally:
             subprocess.run(["git", "-C", REPO, "checkout", "--", "."])
         ks = [l.split("key:", 1)[1].strip() for l in out.splitlines() if "key:" in l]
